@@ -383,6 +383,12 @@ def discharge(prog, iv, site):
             vl, vi = iv.operand(f, ln, b), iv.operand(f, idx, b)
             if vl is not None and vi is not None and vi[0] >= 0 and vi[1] < vl[0]:
                 return "index %s < length %s" % (vi, vl)
+            # the length of a piece of a fixed-size array
+            lt = strip(Resolver(f, max_depth=16).operand(ln))
+            if lt[0] == "unop" and lt[1] == "PtrMetadata":
+                sl = _static_len(lt[2])
+                if sl is not None and vi is not None and 0 <= vi[0] and vi[1] < sl:
+                    return "index %s < static length %d" % (vi, sl)
             return None
         if kind == "OverflowNeg":
             v = iv.operand(f, t["ops"][0], b)
@@ -417,6 +423,11 @@ def discharge(prog, iv, site):
                 if all(_at_most_len(x) for x in alts) and base_s.endswith(".buffer"):
                     return "drain(..n) with n = len - k of the same buffer (a checked subtraction never exceeds len)"
         return None
+    if kind == "bounds" and (c.endswith("::split_at") or c.endswith("::split_at_mut")) and len(t["args"]) == 2:
+        sl = _static_len(R.operand(t["args"][0]))
+        vm = iv.operand(f, t["args"][1], b)
+        if sl is not None and vm is not None and 0 <= vm[0] and vm[1] <= sl:
+            return "split point %s <= static length %d" % (vm, sl)
     if kind == "bounds" and len(t["args"]) == 2:
         # buf[n..] / buf[..n] / buf.split_at(n) with n = the count returned by Read::read / Write::write on that same buf
         why = _transfer_contract(f, R, t, b)
@@ -512,6 +523,42 @@ def _bits_of(f, op):
     ty = _ty_of(f, op)
     r = {"u8": 8, "i8": 8, "u16": 16, "i16": 16, "u32": 32, "i32": 32, "u64": 64, "i64": 64, "usize": 64, "isize": 64, "u128": 128, "i128": 128}
     return r.get(ty)
+
+
+def _static_len(t, depth=0):
+    """constant element count of an array-derived slice expression: [x; N], [a, b, c], arr.split_at(k).0 / .1,
+    arr[a..b] with constant bounds"""
+    if depth > 6:
+        return None
+    t = strip(t)
+    while t[0] == "cast" or t[0] == "ref":
+        t = strip(t[2] if t[0] == "cast" else t[1])
+    if t[0] == "repeat":
+        m = re.match(r"\s*(\d+)", str(t[2]))
+        return int(m.group(1)) if m else None
+    if t[0] == "agg" and t[1][0] == "array":
+        return len(t[2])
+    if t[0] == "field" and t[2] in ("0", "1"):
+        c = strip(t[1])
+        if c[0] == "call" and (c[1].endswith("::split_at") or c[1].endswith("::split_at_mut")) and len(c[2]) == 2:
+            n = _static_len(c[2][0], depth + 1)
+            k = strip_deep(c[2][1])
+            if n is not None and k[0] == "const" and isinstance(k[2], int) and k[2] <= n:
+                return k[2] if t[2] == "0" else n - k[2]
+        return None
+    if t[0] == "call" and (t[1].endswith("::index") or t[1].endswith("::index_mut")) and len(t[2]) == 2:
+        n = _static_len(t[2][0], depth + 1)
+        r = strip(t[2][1])
+        if n is not None and r[0] == "agg" and r[1][0] == "adt":
+            cs = [strip_deep(x) for x in r[2]]
+            if all(x[0] == "const" and isinstance(x[2], int) for x in cs):
+                if r[1][2] == "Range" and cs[0][2] <= cs[1][2] <= n:
+                    return cs[1][2] - cs[0][2]
+                if r[1][2] == "RangeTo" and cs[0][2] <= n:
+                    return cs[0][2]
+                if r[1][2] == "RangeFrom" and cs[0][2] <= n:
+                    return n - cs[0][2]
+    return None
 
 
 def _agg_stmt(f, op):
